@@ -31,6 +31,7 @@ def _submit(eng, args, kw, st, fr, k, node):
     fut = eng.fresh("future", "V")
     g = dict(st.ghost)
     g["n_submitted"] = g["n_submitted"] + 1
+    g["last_submitted"] = fut
     st = St(st.env, st.heap, st.pc + [RUN_OF(fut) == eng.to_v(args[1]) if len(args) >= 2 else z3.BoolVal(True), fut != NONE], g)
     return k(Opq(fut), st)
 
@@ -38,7 +39,7 @@ def _submit(eng, args, kw, st, fr, k, node):
 def _futures_store(eng, st, key, value, node):
     """futures[fut] = r"""
     eng.oblige("pairing", "a future is filed under the run id it was submitted for", st, RUN_OF(eng.to_v(key)) == eng.to_v(value), node)
-    return st
+    return St(st.env, st.heap, st.pc, {**st.ghost, "last_filed": eng.to_v(key)})
 
 
 def _futures_pop(eng, args, kw, st, fr, k, node):
@@ -120,6 +121,14 @@ def _islice(eng, args, kw, st, fr, k, node):
     return k(Opq(z3.Function("fn:itertools.islice", V, V, V, V)(*vs)), st)
 
 
+def _wait(eng, args, kw, st, fr, k, node):
+    """wait(futures, return_when=FIRST_COMPLETED): a new round starts"""
+    g = dict(st.ghost)
+    g["ti_at_wait"] = eng.to_int(st.env["task_index"])
+    g["round_handled"] = z3.BoolVal(False)
+    return k((Opq(eng.fresh("done", "V")), Opq(eng.fresh("not_done", "V"))), St(st.env, st.heap, st.pc, g))
+
+
 def _setup(eng, st):
     env = dict(st.env)
     env["#entry_kwargs"] = dict(st.env["kwargs"])
@@ -140,22 +149,27 @@ multi_run = REG.add(Contract(
                               S.If(a.throw_away_result, r is PNONE, S.And(a.ghost.sorted, a.ghost.n_results == a.ghost.n_ids)))],
     raises={"Any": lambda S, a: S.Not(a.ignore_errors)},
     ghost={"n_submitted": z3.IntVal(0), "n_results": z3.IntVal(0), "n_ids": z3.IntVal(0), "sorted": z3.BoolVal(False),
+           "last_submitted": z3.Const("no_future_submitted", V), "last_filed": z3.Const("no_future_filed", V), "ti_at_wait": z3.IntVal(0),
+           "round_handled": z3.BoolVal(False),
            "ids": z3.Const("no_ids", V), "merged": z3.Const("nothing_merged", V), "last_result_of": z3.Const("no_future", V)},
     calls={"exc.submit": _submit, "futures.pop": _futures_pop, "np.array": _np_array, "merge_arrs": _merge_arrs,
            "final_result.append": _append_result, "run_id_output.append": _append_id, "stable_argsort": _argsort,
            "stable_sort": Abstract(pure=True), "np.any": Abstract(sort="bool"), "warn": Abstract(sort=None), "tqdm": Abstract(),
-           "ThreadPoolExecutor": Abstract(), "itertools.islice": _islice, "wait": Abstract(),
+           "ThreadPoolExecutor": Abstract(), "itertools.islice": _islice, "wait": _wait,
            "logging.getLogger": Abstract(), "failures.append": Abstract(sort=None),
            "log.debug": Abstract(sort=None), "log.warning": Abstract(sort=None), "pbar.update": Abstract(sort=None), "pbar.close": Abstract(sort=None)},
     store_hooks={"futures": _futures_store},
-    loops={1: Loop(_mr_inv_done),
+    loops={1: Loop(_mr_inv_done, body_ensures=lambda S, a: [
+               ("in every round ALL futures that finished are handled (the loop over them is not left early)", a.ghost.round_handled)]),
            2: Loop(_mr_inv_done, body_ensures=lambda S, a: [
                ("the handling of a finished future completes normally only if it succeeded or its failure is to be ignored "
-                "(also when results are thrown away)", S.Or(EXCEPTION(S.v(a.f)) == NONE, a.ignore_errors))]),
-           3: Loop(_mr_inv_done, body_ensures=lambda S, a: [
-               ("each scheduled run advances the position in the list of run ids by one", S.true)])},
-    loop_ghost={1: ["n_submitted", "n_results", "n_ids", "ids", "merged", "last_result_of"],
-                2: ["n_results", "n_ids", "ids", "merged", "last_result_of"], 3: ["n_submitted"]},
+                "(also when results are thrown away)", S.Or(EXCEPTION(S.v(a.f)) == NONE, a.ignore_errors))],
+               on_exit=lambda eng, st: St(st.env, st.heap, st.pc, {**st.ghost, "round_handled": z3.BoolVal(True)})),
+           3: Loop(lambda S, a: _mr_inv_done(S, a) + [
+               ("each run scheduled in the refill advances the position in the list of run ids by one", a.task_index == a.ghost.ti_at_wait + a.k_)],
+               body_ensures=lambda S, a: [("every future submitted in the refill is filed in the futures dict", a.ghost.last_filed == a.ghost.last_submitted)])},
+    loop_ghost={1: ["n_submitted", "n_results", "n_ids", "ids", "merged", "last_result_of", "last_submitted", "last_filed", "ti_at_wait", "round_handled"],
+                2: ["n_results", "n_ids", "ids", "merged", "last_result_of"], 3: ["n_submitted", "last_submitted", "last_filed"]},
     local_sorts={"futures": "V", "final_result": "V", "run_id_output": "V", "failures": "V", "task_index": "int", "tasks_done": "int"},
 ))
 from pyvc.library import plain_with  # noqa: E402
